@@ -471,4 +471,6 @@ def check(ctx):
     # the grid a run continues with is the refinement of the last result: the accessor that derives
     # it must not short-cut the refinement (shared with C19)
     share(ctx, 'C19', 'R6/C19.', ['R2.next_grid'])
+    # every rank refines its grid after every iteration (shared with C19)
+    share(ctx, 'C19', 'R7/C19.', ['R4.mpi_state_chain', 'R4.mpi_refinement'])
 
